@@ -15,3 +15,26 @@ def expand(arg):
         n, s = arg[1:].split(':')
         return pattern_bytes(int(n), int(s))
     return bytes.fromhex(arg)
+
+def run_balanced(vlib, exe, lines, env=None, shards=16, cost=None):
+    """like vlib.run_lines with shards, but cases are distributed by estimated cost
+    (longest first, least-loaded shard) instead of contiguous chunks; returns the
+    outputs in the order of [lines]."""
+    from concurrent.futures import ThreadPoolExecutor
+    if len(lines) < 2 * shards:
+        return vlib.run_lines(exe, lines, env=env)
+    cost = cost or len
+    cs = [cost(l) for l in lines]
+    order = sorted(range(len(lines)), key=lambda i: -cs[i])
+    buckets = [[] for _ in range(shards)]; loads = [0] * shards
+    for i in order:
+        j = loads.index(min(loads)); buckets[j].append(i); loads[j] += cs[i] + 1
+    for b in buckets:
+        b.sort()
+    with ThreadPoolExecutor(shards) as ex:
+        outs = list(ex.map(lambda b: vlib.run_lines(exe, [lines[i] for i in b], env=env) if b else [], buckets))
+    res = [None] * len(lines)
+    for b, o in zip(buckets, outs):
+        for i, x in zip(b, o):
+            res[i] = x
+    return res
